@@ -342,6 +342,10 @@ class LazyObject(types.Resolvable[_T]):
     return hash(self.id)
 
   def __eq__(self, other: Self) -> bool:
+    # The hash of an uncached lazy object is the hash of its value: it meets
+    # plain values in dict lookups and tuple comparisons.
+    if not isinstance(other, LazyObject):
+      return False
     if self.id == other.id:
       return True
     if not self._cache_result and not other._cache_result:
